@@ -8,6 +8,7 @@
 -/
 import ProphyModel.Accept
 import ProphyModel.Lemmas.WFAccept
+import ProphyModel.Lemmas.AcceptImplies
 namespace Prophy.C12
 open Prophy Prophy.Accept
 
@@ -77,5 +78,23 @@ theorem C12_accepted_is_wellformed (t : Ty) (hf : front t = true) (hp : pyRt t =
     through as optional / fixed / limited element / union arm has one size on the wire -/
 theorem C12_runtime_fixed (t : Ty) (hp : pyRt t = true) (hd : (Py.stTy t).dyn = false) : Spec.fixedTy t = true :=
   Accept.fixed_of_pyRt t hp hd
+
+
+/-- FULL STATEMENT (model level): whatever the prophy front-end accepts, the Python runtime imports.
+    `noShift`: prophyc never emits a shifted counter (`shift=` exists only in hand-written Python
+    descriptors, which `front` does not judge); without it the implication fails, see below -/
+theorem C12_accepted_realisable (t : Ty) (hf : front t = true) (hns : Accept.noShift t = true) : pyRt t = true :=
+  Accept.pyRt_of_front t hf hns
+
+/-- on accepted schemas the runtime's checks reduce to its two checks on shifts -/
+theorem C12_runtime_checks_beyond_front (t : Ty) (hf : front t = true) : pyRt t = true ↔ Accept.shiftsOk t = true :=
+  Accept.pyRt_iff_shiftsOk t hf
+
+theorem C12_shift_needs_the_runtime_check : ¬ (∀ t : Ty, front t = true → pyRt t = true) := Accept.pyRt_of_front_false
+
+/-- prophyc's and the runtime's notions of stiffness coincide on accepted schemas -/
+theorem C12_stiffness_bridge (t : Ty) (ht : front t = true) :
+    ((PL.nodeTy t).kind = 0 ↔ (Py.stTy t).dyn = false) ∧ ((PL.nodeTy t).kind = 2 ↔ (Py.stTy t).unl = true) ∧ (PL.nodeTy t).kind ≤ 2 :=
+  Accept.stTy_kind_p12 t ht
 
 end Prophy.C12
